@@ -162,6 +162,22 @@ func Globals(p *load.Program, r *report.Report, rule string) {
 				}
 				loads++
 				if !isRefType(elem) {
+					// a composite value that carries references (a struct with a slice / map / pointer field, an array of
+					// such): copying it hands the same backing memory to every instance that receives a copy
+					if _, isIface := elem.Underlying().(*types.Interface); !isIface && containsRef(elem, map[types.Type]bool{}) {
+						for _, ref := range *x.Referrers() {
+							switch ref.(type) {
+							case *ssa.DebugRef:
+							case *ssa.Field:
+								// reading a field out of the copy: judged by what the field is
+								if fv, ok := ref.(*ssa.Field); ok && containsRef(fv.Type(), map[types.Type]bool{}) {
+									bad = append(bad, "a reference-carrying part of it is copied out"+at+": the copies share its backing memory")
+								}
+							default:
+								bad = append(bad, "its value (which carries slices/maps/pointers) is copied"+at+": every copy shares the same backing memory")
+							}
+						}
+					}
 					break
 				}
 				for _, ref := range *x.Referrers() {
@@ -229,6 +245,27 @@ func Globals(p *load.Program, r *report.Report, rule string) {
 func dedupSorted(in []string) []string {
 	sort.Strings(in)
 	return dedup(in)
+}
+
+// containsRef: the type is, or has a component that is, a pointer / map / slice / channel / function.
+func containsRef(t types.Type, seen map[types.Type]bool) bool {
+	if seen[t] {
+		return false
+	}
+	seen[t] = true
+	switch u := t.Underlying().(type) {
+	case *types.Pointer, *types.Map, *types.Slice, *types.Chan, *types.Signature:
+		return true
+	case *types.Struct:
+		for i := 0; i < u.NumFields(); i++ {
+			if containsRef(u.Field(i).Type(), seen) {
+				return true
+			}
+		}
+	case *types.Array:
+		return containsRef(u.Elem(), seen)
+	}
+	return false
 }
 
 func isRefType(t types.Type) bool {
